@@ -78,28 +78,39 @@ TRUSTED = [
     "fill and Histogram.__init__/fill into LenaModel/Model/C06.lean (plus NArr.lean), validated by this "
     "correspondence check",
     "the float interpolation guess of get_bin_on_value_1d is a parameter of the model; the harness supplies its value at "
-    "the search states visited by evaluating the expression of hist_functions.py:206-210 on the case's numbers",
+    "the search states visited (for half of the 1-d cases: at every state GuessOKAt speaks about) by evaluating the "
+    "expression of hist_functions.py:206-210 on the case's numbers; the driver evaluates visitedInRange / guessOKAtB on "
+    "these real guesses on every case, and for all-float arrays recomputes them with Lean's IEEE-754 Float (floatGuess) "
+    "- equal on every state so far",
     "JSON line protocol encoders (harness/props/c06.py, drivers/C06.lean); exact rank / scaled-integer encodings",
 ]
 ASSUMPTIONS = [
-    "the float guess stays within [ind_min, ind_max] (monotonicity of IEEE subtraction/division); the model answers "
-    "'unmodelled' otherwise and the correspondence would show it (never observed)",
+    "the float guess stays within [ind_min, ind_max]: no longer an assumption of the theorems (bin1d_ok_or_unmodelled, "
+    "fill_ok_or_unmodelled hold for ANY guess; bin1d_rounded proves it for every monotone rounding) but checked by "
+    "execution on every generated case (visitedInRange, guessOKAtB); the model answers 'unmodelled' otherwise and the "
+    "correspondence would show it (never observed)",
     "edge values and coordinates are finite numbers (no NaN/inf) whose differences do not overflow; they are only compared",
     "weights and bin contents are ints or dyadic floats whose sums are exact (rounding in sums of arbitrary floats is "
     "outside the model); theorems hold for any commutative monoid of weights",
     "sub-lists of user-supplied bins are not aliased (init_bins builds distinct lists; checked by the exactly-one-cell "
     "oracle on the real objects)",
 ]
-RULE = ("cases: (bin1d) one edge array (2..12 edges; families: uniform ints/floats, random ints/floats, magnitudes "
-        "1e-300..1e300 with random exponents, one huge outlier next to small values, chains of adjacent floats, mixed "
-        "ints/floats, big ints; also arrays of 1 and up to 40 edges and non-monotone arrays for the correspondence) with "
-        "every edge, its two floating-point neighbours, integer neighbours, midpoints, values far outside and random values; "
-        "(hist) a histogram of 1-3 dimensions (flat and nested edge formats, initial value or given bins, valid and invalid "
-        "edges/bins/coordinate forms) filled with a sequence of such coordinates and integer/dyadic weights of both signs, "
-        "observed after every fill (index list, changed cells, n_out_of_range), finally bins and n_out_of_range; (elem) the "
-        "same through the Histogram element with and without contexts (state read from _hist/_cur_context). quick: about 60 k filled points per seed, thorough: "
-        "about 2.2 M. Non-trivial: at least one value landed in a cell and at least one search needed an interpolation guess, "
-        "or an exception was raised.")
+RULE = ("a lazy stream of interleaved cases: (bin1d) one edge array (2..12 edges; families: uniform ints/floats, random "
+        "ints/floats, magnitudes 1e-300..1e300 with random exponents, one huge outlier next to small values, chains of "
+        "adjacent floats, mixed ints/floats, big ints; also arrays of 1 and up to 40 edges and non-monotone arrays for the "
+        "correspondence) with every edge, its two floating-point neighbours, integer neighbours, midpoints, values far "
+        "outside and random values - for half of them the guess at EVERY state GuessOKAt speaks about is tabulated, for "
+        "all-float arrays the driver recomputes every guess with Lean's Float, for all-int arrays it runs interpGuess and "
+        "roundedGuess; (hist) a histogram of 1-3 dimensions (flat and nested edge formats, initial value or given bins - "
+        "also for nested one-dimensional edges -, valid and invalid edges/bins/coordinate forms) filled with a sequence of "
+        "such coordinates and integer/dyadic weights of both signs, observed after every fill (index list, changed cells, "
+        "n_out_of_range) and compared with the specification-side interpreter (specFillAll, cellOf?, InCell, indices, total, "
+        "sumW, WF, ValidEdges, Proper); (elem) the same through the Histogram element with and without contexts; (elem2) one "
+        "element object created with bins / make_bins / initial_value (and both: LenaTypeError), re-used across reset()s, "
+        "finally reset() against a new element; (initbins) init_bins with deepcopy True/False on valid and degenerate "
+        "edges. quick: 1500 cases, about 55 k filled points per seed; thorough: 50000 lighter cases, about 1 M points. "
+        "Non-trivial: at least one value landed in a cell and at least one search needed an interpolation guess, or an "
+        "exception was raised.")
 CASE_TIMEOUT = 10
 
 SCALE = 1024
@@ -865,7 +876,15 @@ def compare(case, res, replies):
         m = replies[0]
         a = res.get("bins", {"e": res.get("e")})
         b = m.get("bins", {"e": m.get("e")})
-        return None if a == b else f"init_bins({case['edges']!r}, {case['init']!r}, deepcopy={case['deep']}): impl {a} vs model {b}"
+        if a != b:
+            return f"init_bins({case['edges']!r}, {case['init']!r}, deepcopy={case['deep']}): impl {a} vs model {b}"
+        axes = _valid_axes(case["edges"])
+        if "bins" in m:
+            if m["valid"] != (axes is not None):
+                return f"ValidEdges: model {m['valid']} for {case['edges']!r}"
+            if axes is not None and m["full"] != res["bins"]:
+                return f"NArr.full (dimsOf ..): {m['full']} vs init_bins {res['bins']}"
+        return None
     m = replies[0]
     if "e" in res or "e" in m:
         if res.get("e") != m.get("e") or res.get("phase") != m.get("phase"):
@@ -890,6 +909,8 @@ def compare(case, res, replies):
                 continue
             if a["idx"] != b["idx"] or a["chg"] != b["chg"] or a["oor"] != b["oor"]:
                 return f"fill #{i} {f}: impl {a} vs model {b}"
+            if len(a["chg"]) == 1 and b.get("get") != a["chg"][0][1]:
+                return f"fill #{i} {f}: NArr.get? at the reported cell gives {b.get('get')}, the real cell holds {a['chg'][0][1]}"
         for k in ("bins", "oor"):
             if res[k] != m[k]:
                 return f"final {k}: impl {res[k]} vs model {m[k]}"
@@ -903,6 +924,10 @@ def compare(case, res, replies):
         for k in ("bins", "oor", "ctx"):
             if res[k] != m[k]:
                 return f"final {k}: impl {res[k]} vs model {m[k]}"
+        tot = _total(res["bins"]) + (_num(res["oor"]) or 0)
+        if m["lctx"] != res["ctx"] or m["sumw"] != len(case["fills"]) * SCALE or m["tot"] != tot:
+            return (f"lastCtx / sumW(toOps) / total: model {m['lctx']} / {m['sumw']} / {m['tot']} vs context {res['ctx']}, "
+                    f"{len(case['fills'])} values, sum over the real bins {tot}")
         return None
     if op == "elem2":
         for k in ("bins", "oor", "ctx", "fresh"):
@@ -1368,10 +1393,11 @@ def shrink(case):
 
 
 # ---- MANIFEST texts ------------------------------------------------------------------------
-LEVEL_TEXT = ("Lean 4 theorems about a transcribed model of get_bin_on_value_1d / get_bin_on_value / histogram.fill / "
-              "check_edges_increasing / init_bins / Histogram.fill, for all strictly increasing edge arrays in any number of "
-              "dimensions, all coordinates, all weights of a commutative monoid and every in-range interpolation guess "
-              "(no bound on lengths, dimensions or the number of fills); the model is tied to /repo by a correspondence check "
+LEVEL_TEXT = ("Lean 4 theorems about a transcribed model of get_bin_on_value_1d / get_bin_on_value / histogram.__init__/fill / "
+              "check_edges_increasing / init_bins / Histogram.__init__/fill/reset, for all strictly increasing edge arrays in "
+              "any number of dimensions, all coordinates, all weights of a commutative monoid and every interpolation guess "
+              "(right cell or an explicit 'guess left its range' outcome for ANY guess; in range for every monotone rounding) "
+              "(no bound on lengths, dimensions, the number of fills or resets); the model is tied to /repo by a correspondence check "
               "on sampled histograms (1-3 dimensions, 2..12 edges, float neighbours of every edge, magnitudes 1e-300..1e300) "
               "plus a direct oracle on the real code (count of edges <= value, exactly-one-cell delta, exact conservation).")
 LEVEL_NOTE = ("Trusted: Lean kernel (+ propext, Classical.choice, Quot.sound), the hand transcription validated by the sampled "
